@@ -49,12 +49,14 @@ def weibullLogPdf [Add α] [Sub α] [Mul α] [Div α] [OfNat α 1]
   let z := (x - g) / a
   (log b - log a + (b - 1) * log z - pow z b)
 
-/-- exponentiated Weibull: `log[ δβ/α · z^(β-1) · (1-exp(-z^β))^(δ-1) · exp(-z^β) ]`, `z = x/α` -/
+/-- exponentiated Weibull: `log[ δβ/α · z^(β-1) · (1-exp(-z^β))^(δ-1) · exp(-z^β) ]`, `z = x/α`;
+`1 - exp(-p)` is taken as `-expm1(-p)` (`expm1 t = exp t - 1`; the leaf avoids the cancellation for
+small `p`, as scipy's `exponweib._logpdf` does) -/
 def expWeibullLogPdf [Add α] [Sub α] [Mul α] [Div α] [Neg α] [OfNat α 1]
-    (log exp : α → α) (pow : α → α → α) (a b d x : α) : α :=
+    (log expm1 : α → α) (pow : α → α → α) (a b d x : α) : α :=
   let z := x / a
   let p := pow z b
-  (log d + log b - log a + (b - 1) * log z + (d - 1) * log (1 - exp (-p)) - p)
+  (log d + log b - log a + (b - 1) * log z + (d - 1) * log (-(expm1 (-p))) - p)
 
 /-- normal: `-log σ - log(2π)/2 - ((x-μ)/σ)²/2`; `l2pi` is the value of `log(2π)` -/
 def normalLogPdf [Sub α] [Mul α] [Div α] [Neg α] [OfNat α 2]
